@@ -229,6 +229,7 @@ def run_case(spec):
   seen_search = False
   sibling = None
   stranger = None
+  own_index = False
   for op, arg in ops:
     if op == 'stranger_search':
       # an unrelated search object on ANOTHER data object (same number of geos, other volumes) is used in between:
@@ -262,6 +263,7 @@ def run_case(spec):
       if sibling:
         util.call(getattr(sibling, ['greedy_search', 'exhaustive_search'][arg % 2]))
         counters['sibling_searches'] += 1
+        own_index = False
         # retrieval of A's *stored* results after another object re-indexed the shared data object is outside
         # the property's quantifier (call sequences of ONE object): stored designs hold positions that are mapped
         # through the data object's current geo index. Not judged until A searches again (DESIGN §11.2).
@@ -276,8 +278,11 @@ def run_case(spec):
     if seen_search:
       searched_then_more = True
     before = dataclasses.asdict(par)
-    # "direct": only while no sibling object has re-indexed the shared data object (see the note on siblings below)
-    live = util.call(do_op, mm, op, arg, arg % 3 == 0, sibling is None)
+    # "direct": only while the index in place on the data object is the one this object installed itself (no sibling
+    # - in this history or before it, see build() - has re-indexed the shared data object since)
+    live = util.call(do_op, mm, op, arg, arg % 3 == 0, own_index)
+    if op in ('geo_assignments', 'count_max_designs', 'list_treatment_groups', 'list_control_groups', 'exhaustive_search', 'greedy_search'):
+      own_index = live.ok
     after = dataclasses.asdict(par)
     counters['param_snapshots'] += 1
     log.append(op)
